@@ -45,41 +45,48 @@ pub fn prog(rng: &mut Rng, count: u64, profile: &str, emit: Emit) {
     }
 }
 
+/// the program of one `prog-fault` / `prog-loop` / `prog-multi` case: a generated program with the fault planted, what was
+/// planted and the name concerned
+pub fn faulty_program(rng: &mut Rng, kind: &str) -> (proggen::Generated, &'static str, String) {
+    let profile = *rng.pick(&[Profile::Dag, Profile::Banks, Profile::RegFile, Profile::Memory]);
+    let mut g = proggen::program(rng, profile);
+    let (what, name) = if kind == "loop" { proggen::inject_loop(rng, &mut g) }
+        else if kind == "multi" {
+            // two or three independent faults in different expressions: all of them must be reported, in every build
+            let pool: [&str; 6] = ["wire mfc:8; mfc = mfa & mfb;", "wire mfd:1; mfd = mfa && mfb;", "wire mfe:8; mfe = mfa[4..2];",
+                "wire mff:8; mff = ghostwire + 1;", "wire mfg:8; mfg = (mfa .. 3);", "wire mfh:8; mfh = [ mfa == 1 : mfb; 1 : mfa ];"];
+            let mut idx: Vec<usize> = (0..pool.len()).collect();
+            rng.shuffle(&mut idx);
+            let n = rng.range(2, 3) as usize;
+            // now and then a long batch of diagnostics of one kind (more than ten wires never assigned, or read without
+            // being declared): every one of them is reported, whatever order the tables are walked in
+            if rng.chance(1, 6) {
+                let many = rng.range(11, 24);
+                let undeclared = rng.chance(1, 2);
+                let mut text = String::new();
+                for i in 0..many {
+                    if undeclared { text.push_str(&format!("wire mq{}:8; mq{} = ghost_q{} + 1; ", i, i, i)); }
+                    else { text.push_str(&format!("wire mq{}:8; ", i)); }
+                }
+                let atq = rng.below(g.stmts.len() as u64 + 1) as usize;
+                g.stmts.insert(atq, proggen::Stmt::Raw(text));
+            }
+            let at0 = rng.below(g.stmts.len() as u64 + 1) as usize;
+            g.stmts.insert(at0, proggen::Stmt::Raw(String::from("wire mfa:8, mfb:4; mfa = 1; mfb = 2;")));
+            for k in 0..n {
+                let at = rng.below(g.stmts.len() as u64 + 1) as usize;
+                g.stmts.insert(at, proggen::Stmt::Raw(String::from(pool[idx[k]])));
+            }
+            ("none", String::from("-"))
+        }
+        else { proggen::inject_fault(rng, &mut g) };
+    (g, what, name)
+}
+
 /// S-PROG with one injected fault (C09) or loop (C10); the injected name is passed along
 pub fn prog_faulty(rng: &mut Rng, count: u64, kind: &str, emit: Emit) {
     for _ in 0..count {
-        let profile = *rng.pick(&[Profile::Dag, Profile::Banks, Profile::RegFile, Profile::Memory]);
-        let mut g = proggen::program(rng, profile);
-        let (what, name) = if kind == "loop" { proggen::inject_loop(rng, &mut g) }
-            else if kind == "multi" {
-                // two or three independent faults in different expressions: all of them must be reported, in every build
-                let pool: [&str; 6] = ["wire mfc:8; mfc = mfa & mfb;", "wire mfd:1; mfd = mfa && mfb;", "wire mfe:8; mfe = mfa[4..2];",
-                    "wire mff:8; mff = ghostwire + 1;", "wire mfg:8; mfg = (mfa .. 3);", "wire mfh:8; mfh = [ mfa == 1 : mfb; 1 : mfa ];"];
-                let mut idx: Vec<usize> = (0..pool.len()).collect();
-                rng.shuffle(&mut idx);
-                let n = rng.range(2, 3) as usize;
-                // now and then a long batch of diagnostics of one kind (more than ten wires never assigned, or read without
-                // being declared): every one of them is reported, whatever order the tables are walked in
-                if rng.chance(1, 6) {
-                    let many = rng.range(11, 24);
-                    let undeclared = rng.chance(1, 2);
-                    let mut text = String::new();
-                    for i in 0..many {
-                        if undeclared { text.push_str(&format!("wire mq{}:8; mq{} = ghost_q{} + 1; ", i, i, i)); }
-                        else { text.push_str(&format!("wire mq{}:8; ", i)); }
-                    }
-                    let atq = rng.below(g.stmts.len() as u64 + 1) as usize;
-                    g.stmts.insert(atq, proggen::Stmt::Raw(text));
-                }
-                let at0 = rng.below(g.stmts.len() as u64 + 1) as usize;
-                g.stmts.insert(at0, proggen::Stmt::Raw(String::from("wire mfa:8, mfb:4; mfa = 1; mfb = 2;")));
-                for k in 0..n {
-                    let at = rng.below(g.stmts.len() as u64 + 1) as usize;
-                    g.stmts.insert(at, proggen::Stmt::Raw(String::from(pool[idx[k]])));
-                }
-                ("none", String::from("-"))
-            }
-            else { proggen::inject_fault(rng, &mut g) };
+        let (g, what, name) = faulty_program(rng, kind);
         let text = proggen::render_program(&g.stmts);
         let repeats: u32 = std::env::var("VERIF_REPEATS").ok().and_then(|x| x.parse().ok()).unwrap_or(4);
         let out = run_program_rep(&text, 2, &g.mem, &format!("(inject {} {}) (text {})", what, name, sexp_escape(&text)), repeats);
@@ -176,49 +183,55 @@ pub fn trace(rng: &mut Rng, count: u64, emit: Emit) {
     }
 }
 
+/// the bytes of one `yo` / `yo-malformed` case
+pub fn yo_input(rng: &mut Rng, malformed: bool) -> Vec<u8> {
+    let mut file: Vec<u8> = Vec::new();
+    let nlines = rng.below(8);
+    for _ in 0..nlines {
+        let eol: &[u8] = if rng.chance(1, 5) { b"\r\n" } else { b"\n" };
+        match rng.below(8) {
+            0 => file.extend_from_slice(b"                            | # a comment"),
+            1 => file.extend_from_slice(b""),
+            2 => file.extend_from_slice(b"  .pos 0x100 no bar here"),
+            3 => file.extend_from_slice(format!("0x{:03x}:                      | label:", rng.below(4096)).as_bytes()),
+            _ => {
+                let addr = match rng.below(4) { 0 => 0, 1 => 0xff6 + rng.below(10), _ => rng.below(4096) };
+                let n = rng.below(11) as usize;
+                let upper = rng.chance(1, 4);
+                let mut hex = String::new();
+                for _ in 0..n { let b = rng.below(256); if upper { hex.push_str(&format!("{:02X}", b)); } else { hex.push_str(&format!("{:02x}", b)); } }
+                let line = if upper { format!("0x{:03X}: {:<20} |   insn", addr, hex) } else { format!("0x{:03x}: {:<20} |   insn", addr, hex) };
+                file.extend_from_slice(line.as_bytes());
+            }
+        }
+        file.extend_from_slice(eol);
+    }
+    if rng.chance(1, 6) && file.ends_with(b"\n") { file.pop(); }
+    if malformed && !file.is_empty() {
+        // damage the file: one or two byte-level edits
+        for _ in 0..rng.range(1, 2) {
+            let pos = rng.below(file.len() as u64) as usize;
+            match rng.below(9) {
+                0 => { file.remove(pos); }
+                1 => { file.insert(pos, b' '); }
+                2 => { file[pos] = *rng.pick(&[b'+', b'-', b'g', b'|', b':', b'x', b' ', b'0']); }
+                3 => { file[pos] = 0xC3; if pos + 1 < file.len() { file[pos + 1] = 0xA9; } }      // e-acute
+                4 => { file[pos] = 0xFF; }                                                       // invalid UTF-8
+                5 => { file.truncate(pos); }
+                6 => { let e = "\u{20ac}".as_bytes(); for (k, b) in e.iter().enumerate() { if pos + k < file.len() { file[pos + k] = *b; } } }
+                7 => { file.insert(pos, b'\n'); }
+                _ => { file.insert(pos, *rng.pick(&[b'a', b'F', b'9'])); }
+            }
+            if file.is_empty() { break; }
+        }
+    }
+    file
+}
+
 /// S-YO: yas listings, valid and malformed, through the real loader
 pub fn yo(rng: &mut Rng, count: u64, malformed: bool, emit: Emit) {
     for _ in 0..count {
-        let mut file: Vec<u8> = Vec::new();
-        let nlines = rng.below(8);
-        for _ in 0..nlines {
-            let eol: &[u8] = if rng.chance(1, 5) { b"\r\n" } else { b"\n" };
-            match rng.below(8) {
-                0 => file.extend_from_slice(b"                            | # a comment"),
-                1 => file.extend_from_slice(b""),
-                2 => file.extend_from_slice(b"  .pos 0x100 no bar here"),
-                3 => file.extend_from_slice(format!("0x{:03x}:                      | label:", rng.below(4096)).as_bytes()),
-                _ => {
-                    let addr = match rng.below(4) { 0 => 0, 1 => 0xff6 + rng.below(10), _ => rng.below(4096) };
-                    let n = rng.below(11) as usize;
-                    let upper = rng.chance(1, 4);
-                    let mut hex = String::new();
-                    for _ in 0..n { let b = rng.below(256); if upper { hex.push_str(&format!("{:02X}", b)); } else { hex.push_str(&format!("{:02x}", b)); } }
-                    let line = if upper { format!("0x{:03X}: {:<20} |   insn", addr, hex) } else { format!("0x{:03x}: {:<20} |   insn", addr, hex) };
-                    file.extend_from_slice(line.as_bytes());
-                }
-            }
-            file.extend_from_slice(eol);
-        }
-        if rng.chance(1, 6) && file.ends_with(b"\n") { file.pop(); }
-        if malformed && !file.is_empty() {
-            // damage the file: one or two byte-level edits
-            for _ in 0..rng.range(1, 2) {
-                let pos = rng.below(file.len() as u64) as usize;
-                match rng.below(9) {
-                    0 => { file.remove(pos); }
-                    1 => { file.insert(pos, b' '); }
-                    2 => { file[pos] = *rng.pick(&[b'+', b'-', b'g', b'|', b':', b'x', b' ', b'0']); }
-                    3 => { file[pos] = 0xC3; if pos + 1 < file.len() { file[pos + 1] = 0xA9; } }      // e-acute
-                    4 => { file[pos] = 0xFF; }                                                       // invalid UTF-8
-                    5 => { file.truncate(pos); }
-                    6 => { let e = "\u{20ac}".as_bytes(); for (k, b) in e.iter().enumerate() { if pos + k < file.len() { file[pos + k] = *b; } } }
-                    7 => { file.insert(pos, b'\n'); }
-                    _ => { file.insert(pos, *rng.pick(&[b'a', b'F', b'9'])); }
-                }
-                if file.is_empty() { break; }
-            }
-        }
+        let file = yo_input(rng, malformed);
         let f2 = file.clone();
         let res = std::panic::catch_unwind(move || hclrs::verif_hooks::load_y86(&f2));
         let result = match res {
@@ -708,6 +721,86 @@ pub fn regions_of(text: &str) -> Vec<String> {
     out
 }
 
+/// one `diag` case: the user text with one planted fault, the kind of fault, the planted span (offsets into the user
+/// text), a second span that has to be shown as well (if any) and the long name used by `undeclared-read`
+pub struct DiagInput { pub user: String, pub kname: &'static str, pub planted: (usize, usize), pub planted2: Option<(usize, usize)>, pub longname: String }
+
+pub fn diag_input(rng: &mut Rng) -> DiagInput {
+    let eol: &str = if rng.chance(1, 4) { "\r\n" } else { "\n" };
+    let filler: [&str; 7] = ["", "# a comment", "   ", "/* block */", "// c style", "/* two", "   lines */ "];
+    let mut lines: Vec<String> = Vec::new();
+    let mut push_fill = |rng: &mut Rng, lines: &mut Vec<String>| {
+        for _ in 0..rng.below(3) {
+            let f = *rng.pick(&filler[..]);
+            if f == "/* two" { lines.push(String::from("/* two")); lines.push(String::from("   lines */ ")); }
+            else if f != "   lines */ " { lines.push(String::from(f)); }
+        }
+    };
+    let base: [&str; 10] = ["wire a : 8;", "a = 1;", "wire b : 4;", "b = 2;", "pc = 0;", "Stat = STAT_AOK;", "wire c : 8;", "c = a;",
+        "register fD { k : 8 = 0; }", "f_k = D_k;"];
+    let kind = rng.below(23);
+    let indent: String = " ".repeat(rng.below(5) as usize);
+    let lead: &str = *rng.pick(&["", "", "a = 1; ", "/* c */ "][..]);
+    // (fault line, column of the offending span within the line, its length, kind name, line replaced or inserted)
+    let longname: String = format!("undeclared_{}", "x".repeat(rng.below(30) as usize));
+    let (fault, tok_col, tok_len, kname, replaces): (String, usize, usize, &str, Option<&str>) = match kind {
+        0 => { let l = format!("{}c = {} + 1;", indent, longname); (l, indent.len() + 4, longname.len(), "undeclared-read", Some("c = a;")) }
+        1 => { let l = format!("{}c = 1 + ;", indent); (l, indent.len() + 8, 1, "unexpected-token", Some("c = a;")) }
+        2 => { let l = format!("{}c = b;", indent); (l, indent.len() + 4, 1, "width-mismatch", Some("c = a;")) }
+        3 => { let l = format!("{}wire d : 8; c = d;", indent); (l, indent.len() + 5, 5, "never-assigned", Some("c = a;")) }
+        4 => { let l = format!("{}c = 0b102;", indent); (l, indent.len() + 8, 1, "bad-literal", Some("c = a;")) }
+        5 => { let l = format!("{}wire a : 8;", indent); (l, indent.len() + 5, 5, "redeclared", None) }
+        6 => { let l = format!("{}c = [ a == 1 : 2; ];", indent); (l, indent.len() + 4, 15, "no-default", Some("c = a;")) }
+        7 => { let l = format!("{}c = a $ 1;", indent); (l, indent.len() + 6, 1, "bad-character", Some("c = a;")) }
+        8 => { let l = format!("{}c = [ a == 1 : a; 1 : b; ];", indent); (l, indent.len() + 22, 1, "case-width-mismatch", Some("c = a;")) }
+        11 => { let l = format!("{}c = 0x100000000000000000000000000000000;", indent); (l, indent.len() + 4, 35, "too-wide-literal", Some("c = a;")) }
+        12 => { let l = format!("{}register qR {{ v : 8 = 0b101; }}", indent); (l, indent.len() + 22, 5, "register-default-width", None) }
+        13 => { let l = format!("{}c = (a .. 0xA5)[0..8];", indent); (l, indent.len() + 10, 4, "concat-right-unsized", Some("c = a;")) }
+        14 => { let l = format!("{}c = (0xA5 .. a)[0..8];", indent); (l, indent.len() + 5, 4, "concat-left-unsized", Some("c = a;")) }
+        15 => { let l = format!("{}c = [ a && 1 : 1; 1 : 2 ];", indent); (l, indent.len() + 6, 1, "non-boolean-operand", Some("c = a;")) }
+        16 => { let l = format!("{}c = a[4..20];", indent); (l, indent.len() + 4, 8, "bit-index-out-of-range", Some("c = a;")) }
+        17 => { let l = format!("{}c = (b == a);", indent); (l, indent.len() + 5, 1, "compare-width-mismatch", Some("c = a;")) }
+        18 => { let l = format!("{}c = (a ..\n{}       0xA5)[0..8];", indent, indent); (l, indent.len() * 2 + 17, 4, "concat-second-line", Some("c = a;")) }
+        9 => { let l = format!("{}zz = 1;", indent); (l, indent.len(), 2, "undeclared-assigned", None) }
+        22 => { let l = format!("{}c = a .. b;", indent); (l, indent.len() + 6, 2, "unexpected-dotdot", Some("c = a;")) }
+        // a second bank with the same input letter declares a register of the same name: both declarations are shown
+        20 | 21 => { let l = format!("{}register fE {{ k : 8 = 0; }}", indent); (l, indent.len() + 14, 9, "dup-register", None) }
+        _ => { let l = format!("{}c = a[4..2];", indent); (l, indent.len() + 4, 7, "bad-slice", Some("c = a;")) }
+    };
+    let _ = lead;
+    // assemble: declarations first so that the fault is the only one
+    let mut order: Vec<String> = Vec::new();
+    for b in base.iter() {
+        if Some(*b) == replaces { continue; }
+        order.push(String::from(*b));
+    }
+    // the statements may come in any order except that the file stays valid; shuffle a little
+    for i in (1..order.len()).rev() { let j = rng.below(i as u64 + 1) as usize; order.swap(i, j); }
+    let fault_at = rng.below(order.len() as u64 + 1) as usize;
+    let mut fault_line_no = 0usize;
+    push_fill(rng, &mut lines);
+    for (i, st) in order.iter().enumerate() {
+        if i == fault_at { lines.push(fault.clone()); fault_line_no = lines.len(); push_fill(rng, &mut lines); }
+        lines.push(st.clone());
+        push_fill(rng, &mut lines);
+    }
+    if fault_at == order.len() { lines.push(fault.clone()); fault_line_no = lines.len(); if rng.chance(1, 2) { push_fill(rng, &mut lines); } }
+    let mut user = String::new();
+    let mut fault_off = 0usize;
+    for (i, l) in lines.iter().enumerate() {
+        if i + 1 == fault_line_no { fault_off = user.len(); }
+        user.push_str(l);
+        if i + 1 < lines.len() || rng.chance(2, 3) { user.push_str(eol); }
+    }
+    // a second place that the diagnostic has to show: the other declaration
+    let planted2: Option<(usize, usize)> = match kname {
+        "redeclared" => user.match_indices("wire a : 8;").map(|(i, _)| i + 5).find(|i| *i != fault_off + tok_col).map(|i| (i, i + 5)),
+        "dup-register" => user.find("register fD {").map(|i| (i + 14, i + 23)),
+        _ => None,
+    };
+    DiagInput { user, kname, planted: (fault_off + tok_col, fault_off + tok_col + tok_len), planted2, longname }
+}
+
 /// S-DIAG: one fault planted at a known line and column of an otherwise valid program; the rendered diagnostics
 /// of the real code (parse_y86_hcl + Error::format_for_contents, real preamble) are cut into their located regions
 pub fn diag(rng: &mut Rng, count: u64, emit: Emit) {
@@ -715,78 +808,7 @@ pub fn diag(rng: &mut Rng, count: u64, emit: Emit) {
     use std::panic::{catch_unwind, AssertUnwindSafe};
     let pre = hclrs::verif_hooks::y86_preamble();
     for _ in 0..count {
-        let eol: &str = if rng.chance(1, 4) { "\r\n" } else { "\n" };
-        let filler: [&str; 7] = ["", "# a comment", "   ", "/* block */", "// c style", "/* two", "   lines */ "];
-        let mut lines: Vec<String> = Vec::new();
-        let mut push_fill = |rng: &mut Rng, lines: &mut Vec<String>| {
-            for _ in 0..rng.below(3) {
-                let f = *rng.pick(&filler[..]);
-                if f == "/* two" { lines.push(String::from("/* two")); lines.push(String::from("   lines */ ")); }
-                else if f != "   lines */ " { lines.push(String::from(f)); }
-            }
-        };
-        let base: [&str; 10] = ["wire a : 8;", "a = 1;", "wire b : 4;", "b = 2;", "pc = 0;", "Stat = STAT_AOK;", "wire c : 8;", "c = a;",
-            "register fD { k : 8 = 0; }", "f_k = D_k;"];
-        let kind = rng.below(23);
-        let indent: String = " ".repeat(rng.below(5) as usize);
-        let lead: &str = *rng.pick(&["", "", "a = 1; ", "/* c */ "][..]);
-        // (fault line, column of the offending span within the line, its length, kind name, line replaced or inserted)
-        let longname: String = format!("undeclared_{}", "x".repeat(rng.below(30) as usize));
-        let (fault, tok_col, tok_len, kname, replaces): (String, usize, usize, &str, Option<&str>) = match kind {
-            0 => { let l = format!("{}c = {} + 1;", indent, longname); (l, indent.len() + 4, longname.len(), "undeclared-read", Some("c = a;")) }
-            1 => { let l = format!("{}c = 1 + ;", indent); (l, indent.len() + 8, 1, "unexpected-token", Some("c = a;")) }
-            2 => { let l = format!("{}c = b;", indent); (l, indent.len() + 4, 1, "width-mismatch", Some("c = a;")) }
-            3 => { let l = format!("{}wire d : 8; c = d;", indent); (l, indent.len() + 5, 5, "never-assigned", Some("c = a;")) }
-            4 => { let l = format!("{}c = 0b102;", indent); (l, indent.len() + 8, 1, "bad-literal", Some("c = a;")) }
-            5 => { let l = format!("{}wire a : 8;", indent); (l, indent.len() + 5, 5, "redeclared", None) }
-            6 => { let l = format!("{}c = [ a == 1 : 2; ];", indent); (l, indent.len() + 4, 15, "no-default", Some("c = a;")) }
-            7 => { let l = format!("{}c = a $ 1;", indent); (l, indent.len() + 6, 1, "bad-character", Some("c = a;")) }
-            8 => { let l = format!("{}c = [ a == 1 : a; 1 : b; ];", indent); (l, indent.len() + 22, 1, "case-width-mismatch", Some("c = a;")) }
-            11 => { let l = format!("{}c = 0x100000000000000000000000000000000;", indent); (l, indent.len() + 4, 35, "too-wide-literal", Some("c = a;")) }
-            12 => { let l = format!("{}register qR {{ v : 8 = 0b101; }}", indent); (l, indent.len() + 22, 5, "register-default-width", None) }
-            13 => { let l = format!("{}c = (a .. 0xA5)[0..8];", indent); (l, indent.len() + 10, 4, "concat-right-unsized", Some("c = a;")) }
-            14 => { let l = format!("{}c = (0xA5 .. a)[0..8];", indent); (l, indent.len() + 5, 4, "concat-left-unsized", Some("c = a;")) }
-            15 => { let l = format!("{}c = [ a && 1 : 1; 1 : 2 ];", indent); (l, indent.len() + 6, 1, "non-boolean-operand", Some("c = a;")) }
-            16 => { let l = format!("{}c = a[4..20];", indent); (l, indent.len() + 4, 8, "bit-index-out-of-range", Some("c = a;")) }
-            17 => { let l = format!("{}c = (b == a);", indent); (l, indent.len() + 5, 1, "compare-width-mismatch", Some("c = a;")) }
-            18 => { let l = format!("{}c = (a ..\n{}       0xA5)[0..8];", indent, indent); (l, indent.len() * 2 + 17, 4, "concat-second-line", Some("c = a;")) }
-            9 => { let l = format!("{}zz = 1;", indent); (l, indent.len(), 2, "undeclared-assigned", None) }
-            22 => { let l = format!("{}c = a .. b;", indent); (l, indent.len() + 6, 2, "unexpected-dotdot", Some("c = a;")) }
-            // a second bank with the same input letter declares a register of the same name: both declarations are shown
-            20 | 21 => { let l = format!("{}register fE {{ k : 8 = 0; }}", indent); (l, indent.len() + 14, 9, "dup-register", None) }
-            _ => { let l = format!("{}c = a[4..2];", indent); (l, indent.len() + 4, 7, "bad-slice", Some("c = a;")) }
-        };
-        let _ = lead;
-        // assemble: declarations first so that the fault is the only one
-        let mut order: Vec<String> = Vec::new();
-        for b in base.iter() {
-            if Some(*b) == replaces { continue; }
-            order.push(String::from(*b));
-        }
-        // the statements may come in any order except that the file stays valid; shuffle a little
-        for i in (1..order.len()).rev() { let j = rng.below(i as u64 + 1) as usize; order.swap(i, j); }
-        let fault_at = rng.below(order.len() as u64 + 1) as usize;
-        let mut fault_line_no = 0usize;
-        push_fill(rng, &mut lines);
-        for (i, st) in order.iter().enumerate() {
-            if i == fault_at { lines.push(fault.clone()); fault_line_no = lines.len(); push_fill(rng, &mut lines); }
-            lines.push(st.clone());
-            push_fill(rng, &mut lines);
-        }
-        if fault_at == order.len() { lines.push(fault.clone()); fault_line_no = lines.len(); if rng.chance(1, 2) { push_fill(rng, &mut lines); } }
-        let mut user = String::new();
-        let mut fault_off = 0usize;
-        for (i, l) in lines.iter().enumerate() {
-            if i + 1 == fault_line_no { fault_off = user.len(); }
-            user.push_str(l);
-            if i + 1 < lines.len() || rng.chance(2, 3) { user.push_str(eol); }
-        }
-        // a second place that the diagnostic has to show: the other declaration
-        let planted2: Option<(usize, usize)> = match kname {
-            "redeclared" => user.match_indices("wire a : 8;").map(|(i, _)| i + 5).find(|i| *i != fault_off + tok_col).map(|i| (i, i + 5)),
-            "dup-register" => user.find("register fD {").map(|i| (i + 14, i + 23)),
-            _ => None,
-        };
+        let DiagInput { user, kname, planted, planted2, longname } = diag_input(rng);
         let name = "t.hcl";
         crate::watch::note_text("diag", &user);
         let contents = FileContents::new_from_data(pre, &user, name);
@@ -818,10 +840,135 @@ pub fn diag(rng: &mut Rng, count: u64, emit: Emit) {
         let result = if result.starts_with("err") { format!("{} shown={}", result, shown_hex.len()) } else { result };
         let p2 = match planted2 { Some((a, b)) => format!(" (planted2 {} {})", a, b), None => String::new() };
         emit(format!("(diag (prelen {}) (user {}) (name {}) (kind {}) (planted {} {}){} (spans {}) (shown {}))",
-                     pre.len(), bl(user.as_bytes()), bl(name.as_bytes()), kname, fault_off + tok_col, fault_off + tok_col + tok_len, p2,
+                     pre.len(), bl(user.as_bytes()), bl(name.as_bytes()), kname, planted.0, planted.1, p2,
                      spans.iter().map(|(a, b)| format!("({} {})", a, b)).collect::<Vec<_>>().join(" "),
                      shown_hex.join(" ")), result);
     }
+}
+
+/// the text of one `anytext` case and how it was made
+pub fn anytext_input(rng: &mut Rng) -> (String, String) {
+    let toks: [&str; 43] = ["wire", "const", "register", "in", "x", "pc", "Stat", "=", "==", ";", ":", ",", "(", ")", "[", "]", "{", "}", "..",
+        "+", "-", "*", "/", "&&", "||", "!", "~", "<", ">>", "0", "1", "0b101", "0x1f", "8", "é", "€", "/*", "*/", "#", "\"", "\u{b2}", "\u{663}", "\u{bd}"];
+    let mode = rng.below(13);
+    let mut bytes: Vec<u8> = if mode == 0 { random_text(rng).into_bytes() } else if mode == 8 {
+        // a half-wired built-in component whose enable signal is a constant expression of any kind
+        let nasty: [&str; 16] = ["0b11[3..1]", "1/0", "[0:1]", "0b11 && 1", "(0xffffffffffffffffffffffffffffffff .. 0b1)", "[1 : 0x100; 0 : 0b1]",
+            "0", "1", "undefined_w", "-0", "0b1[0..0]", "!0b11", "1 in {0b11, 0b1}", "[0b1 : 0b0; 1 : 1]", "0b0", "(1 .. 1)"];
+        let e = *rng.pick(&nasty[..]);
+        let body = match rng.below(3) {
+            0 => format!("mem_writebit = {};\nmem_addr = 0;\n", e),
+            1 => format!("mem_writebit = {};\nmem_input = 0;\n", e),
+            _ => format!("mem_readbit = {};\n", e),
+        };
+        format!("pc = 0; Stat = STAT_AOK;\n{}", body).into_bytes()
+    } else {
+        let profile = *rng.pick(&[Profile::Dag, Profile::Banks, Profile::RegFile, Profile::Memory, Profile::Status]);
+        let mut g = proggen::program(rng, profile);
+        // one planted fault of any class (names of every shape, ASCII or not): the diagnostics are rendered below
+        if mode == 9 {
+            if rng.chance(1, 3) {
+                // an undeclared name of unusual shape, assigned or read
+                let n = proggen::odd_name(rng);
+                let at = rng.below(g.stmts.len() as u64 + 1) as usize;
+                let stmt = if rng.chance(1, 2) { format!("{} = 1;", n) } else { format!("wire zz9:8; zz9 = {} + 1;", n) };
+                g.stmts.insert(at, proggen::Stmt::Raw(stmt));
+            } else { proggen::inject_fault(rng, &mut g); }
+        }
+        if mode == 10 {
+            // a bit selection whose bounds are beyond any width, on sized and unsized operands, where it is evaluated while
+            // the program is built (constant, register default) or at run time (assignment)
+            let hi = *rng.pick(&[129u128, 130, 200, 255, 256, 300, 65535, 1u128 << 64][..]);
+            let lo = *rng.pick(&[0u128, 1, 100, 128, 129, 254][..]);
+            let operand = *rng.pick(&["0xFF", "5", "(1+2)", "STAT_AOK", "0b1", "pc", "i10bytes", "(0xffffffffffffffffffffffffffffffff)", "-1"][..]);
+            let sel = format!("{}[{}..{}]", operand, lo, hi);
+            let stmt = match rng.below(4) {
+                0 => format!("const ZQ9 = {};", sel),
+                1 => format!("register qZ {{ a : 8 = {}; }} q_a = Z_a;", sel),
+                2 => format!("wire zz9:8; zz9 = {};", sel),
+                _ => format!("const ZQ9 = 1; wire zz9:64; zz9 = [ZQ9 == 1 : {}; 1 : 0];", sel),
+            };
+            let at = rng.below(g.stmts.len() as u64 + 1) as usize;
+            g.stmts.insert(at, proggen::Stmt::Raw(stmt));
+        }
+        if mode == 11 {
+            // case expressions of every shape: three to six arms of widths 3, 5 or unsized, each condition either the
+            // constant 1 or a comparison; all the diagnostics about them (widths disagree, no / several defaults, arms
+            // after the default) must render
+            let narms = rng.range(3, 6);
+            let mut arms = String::new();
+            for _ in 0..narms {
+                let cond = if rng.chance(1, 3) { String::from("1") } else { format!("zz8 == {}", rng.below(4)) };
+                let val = *rng.pick(&["0b001", "0b00001", "2", "0b101", "zz8", "0b00010"][..]);
+                arms.push_str(&format!(" {} : {};", cond, val));
+            }
+            let stmt = format!("wire zz8:3; zz8 = 1; wire zz9:{}; zz9 = [{} ];", rng.pick(&[3, 5, 8][..]), arms);
+            let at = rng.below(g.stmts.len() as u64 + 1) as usize;
+            g.stmts.insert(at, proggen::Stmt::Raw(stmt));
+        }
+        proggen::render_program(&g.stmts).into_bytes()
+    };
+    let mut how = String::from("soup");
+    if mode != 0 && !bytes.is_empty() {
+        match mode {
+            8 => { how = String::from("half-wired-component"); }
+            9 => { how = String::from("fault-injected"); }
+            10 => { how = String::from("huge-slice-bounds"); }
+            11 => { how = String::from("case-expression-shapes"); }
+            12 => {
+                // a forgotten semicolon at the end of a line, followed by a comment (or a blank) that ends in a character of
+                // more than one byte: the error is at the first token of the next line
+                let text = String::from_utf8_lossy(&bytes).into_owned();
+                let mut lines: Vec<String> = text.split('\n').map(|l| l.to_string()).collect();
+                let cands: Vec<usize> = (0..lines.len()).filter(|i| lines[*i].trim_end().ends_with(';') && *i + 1 < lines.len()).collect();
+                if !cands.is_empty() {
+                    let i = *rng.pick(&cands[..]);
+                    let cut = lines[i].trim_end().len() - 1;
+                    lines[i].truncate(cut);
+                    lines[i].push_str(*rng.pick(&[" # aqu\u{ed}", " // fin de l\u{ed}nea \u{2014}", " /* \u{3b1} */ \u{a0}", "\u{a0}", " # \u{65e5}\u{672c}", " #\u{e9}"][..]));
+                }
+                bytes = lines.join("\n").into_bytes();
+                how = String::from("missing-semicolon-before-non-ascii");
+            }
+            1 => { let cut = rng.below(bytes.len() as u64 + 1) as usize; bytes.truncate(cut); how = String::from("truncated"); }
+            2 | 3 | 4 => {
+                // edit at a blank: insert, delete or substitute one token
+                let text = String::from_utf8_lossy(&bytes).into_owned();
+                let mut words: Vec<String> = text.split(' ').map(|w| w.to_string()).collect();
+                let k = rng.below(words.len() as u64) as usize;
+                let t = String::from(*rng.pick(&toks[..]));
+                if mode == 2 { words.insert(k, t); how = String::from("token-inserted"); }
+                else if mode == 3 { words.remove(k); how = String::from("token-deleted"); }
+                else { words[k] = t; how = String::from("token-substituted"); }
+                bytes = words.join(" ").into_bytes();
+            }
+            5 => {
+                let text = String::from_utf8_lossy(&bytes).into_owned();
+                let eol = *rng.pick(&["\r\n", "\r", "\n\n"][..]);
+                bytes = text.replace("\n", eol).into_bytes();
+                how = String::from("line-endings");
+            }
+            6 => {
+                let pos = rng.below(bytes.len() as u64) as usize;
+                let junk: &[u8] = *rng.pick(&[&b"\xff"[..], &b"\xc3"[..], &b"\xe2\x82"[..], &b"\xc3\xa9"[..], &b"\xf0\x9f\x98\x80"[..], &b"\x00"[..],
+                    &b"\xc2\xa0"[..], &b"\xe2\x80\xa8"[..], &b"\xe3\x80\x80"[..], &b"\xc2\x85"[..]][..]);
+                for (j, b) in junk.iter().enumerate() { bytes.insert(pos + j, *b); }
+                if rng.chance(1, 2) { bytes.truncate(pos + junk.len()); }
+                how = String::from("non-ascii-or-invalid-utf8");
+            }
+            _ => {
+                // end inside a literal, a comment or a multi-byte character
+                let tail: &[u8] = *rng.pick(&[&b" x = 0x"[..], &b" x = 0b"[..], &b" /* never closed"[..], &b" x = 12"[..], &b" # c"[..], &b" x = \xe2\x82"[..], &b" x = y\xe2\x82\xac"[..], &b" /"[..], &b" ."[..],
+                    // an unfinished statement followed by blanks of more than one byte, a comment, or nothing
+                    &b" x = 1 +\xc2\xa0\n\n"[..], &b" x = 1 +\xe2\x80\xa8 \n"[..], &b" x = (\xe3\x80\x80  "[..], &b" wire q\xc2\xa0\xc2\xa0"[..],
+                    &b" x = [ 1 : 2;\xc2\x85\n"[..], &b" register qR {\n  a : 8 = 0\n"[..], &b" x = 1 + # c\n\n"[..], &b" x = 1 + /* c */ \n"[..]][..]);
+                bytes.extend_from_slice(tail);
+                how = String::from("ends-inside-a-token");
+            }
+        }
+    }
+    let text = String::from_utf8_lossy(&bytes).into_owned();
+    (text, how)
 }
 
 /// S-TEXT: arbitrary texts as HCL files (token soup, truncations and single-token edits of valid programs, CR/CRLF,
@@ -830,127 +977,8 @@ pub fn anytext(rng: &mut Rng, count: u64, emit: Emit) {
     use hclrs::{parse_y86_hcl, FileContents};
     use std::panic::{catch_unwind, AssertUnwindSafe};
     let pre = hclrs::verif_hooks::y86_preamble();
-    let toks: [&str; 43] = ["wire", "const", "register", "in", "x", "pc", "Stat", "=", "==", ";", ":", ",", "(", ")", "[", "]", "{", "}", "..",
-        "+", "-", "*", "/", "&&", "||", "!", "~", "<", ">>", "0", "1", "0b101", "0x1f", "8", "é", "€", "/*", "*/", "#", "\"", "\u{b2}", "\u{663}", "\u{bd}"];
     for _ in 0..count {
-        let mode = rng.below(13);
-        let mut bytes: Vec<u8> = if mode == 0 { random_text(rng).into_bytes() } else if mode == 8 {
-            // a half-wired built-in component whose enable signal is a constant expression of any kind
-            let nasty: [&str; 16] = ["0b11[3..1]", "1/0", "[0:1]", "0b11 && 1", "(0xffffffffffffffffffffffffffffffff .. 0b1)", "[1 : 0x100; 0 : 0b1]",
-                "0", "1", "undefined_w", "-0", "0b1[0..0]", "!0b11", "1 in {0b11, 0b1}", "[0b1 : 0b0; 1 : 1]", "0b0", "(1 .. 1)"];
-            let e = *rng.pick(&nasty[..]);
-            let body = match rng.below(3) {
-                0 => format!("mem_writebit = {};\nmem_addr = 0;\n", e),
-                1 => format!("mem_writebit = {};\nmem_input = 0;\n", e),
-                _ => format!("mem_readbit = {};\n", e),
-            };
-            format!("pc = 0; Stat = STAT_AOK;\n{}", body).into_bytes()
-        } else {
-            let profile = *rng.pick(&[Profile::Dag, Profile::Banks, Profile::RegFile, Profile::Memory, Profile::Status]);
-            let mut g = proggen::program(rng, profile);
-            // one planted fault of any class (names of every shape, ASCII or not): the diagnostics are rendered below
-            if mode == 9 {
-                if rng.chance(1, 3) {
-                    // an undeclared name of unusual shape, assigned or read
-                    let n = proggen::odd_name(rng);
-                    let at = rng.below(g.stmts.len() as u64 + 1) as usize;
-                    let stmt = if rng.chance(1, 2) { format!("{} = 1;", n) } else { format!("wire zz9:8; zz9 = {} + 1;", n) };
-                    g.stmts.insert(at, proggen::Stmt::Raw(stmt));
-                } else { proggen::inject_fault(rng, &mut g); }
-            }
-            if mode == 10 {
-                // a bit selection whose bounds are beyond any width, on sized and unsized operands, where it is evaluated while
-                // the program is built (constant, register default) or at run time (assignment)
-                let hi = *rng.pick(&[129u128, 130, 200, 255, 256, 300, 65535, 1u128 << 64][..]);
-                let lo = *rng.pick(&[0u128, 1, 100, 128, 129, 254][..]);
-                let operand = *rng.pick(&["0xFF", "5", "(1+2)", "STAT_AOK", "0b1", "pc", "i10bytes", "(0xffffffffffffffffffffffffffffffff)", "-1"][..]);
-                let sel = format!("{}[{}..{}]", operand, lo, hi);
-                let stmt = match rng.below(4) {
-                    0 => format!("const ZQ9 = {};", sel),
-                    1 => format!("register qZ {{ a : 8 = {}; }} q_a = Z_a;", sel),
-                    2 => format!("wire zz9:8; zz9 = {};", sel),
-                    _ => format!("const ZQ9 = 1; wire zz9:64; zz9 = [ZQ9 == 1 : {}; 1 : 0];", sel),
-                };
-                let at = rng.below(g.stmts.len() as u64 + 1) as usize;
-                g.stmts.insert(at, proggen::Stmt::Raw(stmt));
-            }
-            if mode == 11 {
-                // case expressions of every shape: three to six arms of widths 3, 5 or unsized, each condition either the
-                // constant 1 or a comparison; all the diagnostics about them (widths disagree, no / several defaults, arms
-                // after the default) must render
-                let narms = rng.range(3, 6);
-                let mut arms = String::new();
-                for _ in 0..narms {
-                    let cond = if rng.chance(1, 3) { String::from("1") } else { format!("zz8 == {}", rng.below(4)) };
-                    let val = *rng.pick(&["0b001", "0b00001", "2", "0b101", "zz8", "0b00010"][..]);
-                    arms.push_str(&format!(" {} : {};", cond, val));
-                }
-                let stmt = format!("wire zz8:3; zz8 = 1; wire zz9:{}; zz9 = [{} ];", rng.pick(&[3, 5, 8][..]), arms);
-                let at = rng.below(g.stmts.len() as u64 + 1) as usize;
-                g.stmts.insert(at, proggen::Stmt::Raw(stmt));
-            }
-            proggen::render_program(&g.stmts).into_bytes()
-        };
-        let mut how = String::from("soup");
-        if mode != 0 && !bytes.is_empty() {
-            match mode {
-                8 => { how = String::from("half-wired-component"); }
-                9 => { how = String::from("fault-injected"); }
-                10 => { how = String::from("huge-slice-bounds"); }
-                11 => { how = String::from("case-expression-shapes"); }
-                12 => {
-                    // a forgotten semicolon at the end of a line, followed by a comment (or a blank) that ends in a character of
-                    // more than one byte: the error is at the first token of the next line
-                    let text = String::from_utf8_lossy(&bytes).into_owned();
-                    let mut lines: Vec<String> = text.split('\n').map(|l| l.to_string()).collect();
-                    let cands: Vec<usize> = (0..lines.len()).filter(|i| lines[*i].trim_end().ends_with(';') && *i + 1 < lines.len()).collect();
-                    if !cands.is_empty() {
-                        let i = *rng.pick(&cands[..]);
-                        let cut = lines[i].trim_end().len() - 1;
-                        lines[i].truncate(cut);
-                        lines[i].push_str(*rng.pick(&[" # aqu\u{ed}", " // fin de l\u{ed}nea \u{2014}", " /* \u{3b1} */ \u{a0}", "\u{a0}", " # \u{65e5}\u{672c}", " #\u{e9}"][..]));
-                    }
-                    bytes = lines.join("\n").into_bytes();
-                    how = String::from("missing-semicolon-before-non-ascii");
-                }
-                1 => { let cut = rng.below(bytes.len() as u64 + 1) as usize; bytes.truncate(cut); how = String::from("truncated"); }
-                2 | 3 | 4 => {
-                    // edit at a blank: insert, delete or substitute one token
-                    let text = String::from_utf8_lossy(&bytes).into_owned();
-                    let mut words: Vec<String> = text.split(' ').map(|w| w.to_string()).collect();
-                    let k = rng.below(words.len() as u64) as usize;
-                    let t = String::from(*rng.pick(&toks[..]));
-                    if mode == 2 { words.insert(k, t); how = String::from("token-inserted"); }
-                    else if mode == 3 { words.remove(k); how = String::from("token-deleted"); }
-                    else { words[k] = t; how = String::from("token-substituted"); }
-                    bytes = words.join(" ").into_bytes();
-                }
-                5 => {
-                    let text = String::from_utf8_lossy(&bytes).into_owned();
-                    let eol = *rng.pick(&["\r\n", "\r", "\n\n"][..]);
-                    bytes = text.replace("\n", eol).into_bytes();
-                    how = String::from("line-endings");
-                }
-                6 => {
-                    let pos = rng.below(bytes.len() as u64) as usize;
-                    let junk: &[u8] = *rng.pick(&[&b"\xff"[..], &b"\xc3"[..], &b"\xe2\x82"[..], &b"\xc3\xa9"[..], &b"\xf0\x9f\x98\x80"[..], &b"\x00"[..],
-                        &b"\xc2\xa0"[..], &b"\xe2\x80\xa8"[..], &b"\xe3\x80\x80"[..], &b"\xc2\x85"[..]][..]);
-                    for (j, b) in junk.iter().enumerate() { bytes.insert(pos + j, *b); }
-                    if rng.chance(1, 2) { bytes.truncate(pos + junk.len()); }
-                    how = String::from("non-ascii-or-invalid-utf8");
-                }
-                _ => {
-                    // end inside a literal, a comment or a multi-byte character
-                    let tail: &[u8] = *rng.pick(&[&b" x = 0x"[..], &b" x = 0b"[..], &b" /* never closed"[..], &b" x = 12"[..], &b" # c"[..], &b" x = \xe2\x82"[..], &b" x = y\xe2\x82\xac"[..], &b" /"[..], &b" ."[..],
-                        // an unfinished statement followed by blanks of more than one byte, a comment, or nothing
-                        &b" x = 1 +\xc2\xa0\n\n"[..], &b" x = 1 +\xe2\x80\xa8 \n"[..], &b" x = (\xe3\x80\x80  "[..], &b" wire q\xc2\xa0\xc2\xa0"[..],
-                        &b" x = [ 1 : 2;\xc2\x85\n"[..], &b" register qR {\n  a : 8 = 0\n"[..], &b" x = 1 + # c\n\n"[..], &b" x = 1 + /* c */ \n"[..]][..]);
-                    bytes.extend_from_slice(tail);
-                    how = String::from("ends-inside-a-token");
-                }
-            }
-        }
-        let text = String::from_utf8_lossy(&bytes).into_owned();
+        let (text, how) = anytext_input(rng);
         // rendering of the diagnostics, like main() does
         let t2 = text.clone();
         let rendered = catch_unwind(AssertUnwindSafe(|| {
